@@ -687,11 +687,27 @@ class Interp:
                 elif isinstance(n, ast.Call):
                     cn = self.callee_contract(n.func)
                     if cn is not None:
+                        # a method call `recv.m(a, b)` binds the callee's first parameter (self) to the receiver
+                        is_method = isinstance(n.func, ast.Attribute) and '.' in cn['qualname'] and list(cn['params'])[:1] == ['self']
+                        actuals = ([n.func.value] if is_method else []) + list(n.args)
                         for m in cn.get('modifies', []):
                             if m.startswith('param:'):
-                                idx = list(cn['params']).index(m[6:].split('.')[0])
-                                if idx < len(n.args):
-                                    conts.append(n.args[idx])
+                                path = m[6:].split('.')
+                                pnames = [p_ for p_ in cn['params']]
+                                if path[0] not in pnames:
+                                    continue
+                                idx = pnames.index(path[0])
+                                expr = None
+                                if idx < len(actuals):
+                                    expr = actuals[idx]
+                                else:
+                                    kw = [k_.value for k_ in n.keywords if k_.arg == path[0]]
+                                    expr = kw[0] if kw else None
+                                if expr is None:
+                                    continue
+                                for fld in path[1:]:
+                                    expr = ast.Attribute(value=expr, attr=fld, ctx=ast.Load())
+                                conts.append(expr)
                             else:
                                 conts.append(ast.Name(id=m, ctx=ast.Load()))
                 elif isinstance(n, ast.comprehension):
